@@ -67,8 +67,17 @@ def load_known_findings():
 
 
 def ob_key(ob):
+    """stable key of an obligation: path index and source positions removed"""
     lab = re.sub(r"#p\d+$", "", ob.label)
+    lab = re.sub(r"@\d+(:\d+)?", "", lab)
     return lab
+
+
+def load_baseline():
+    path = os.path.join(VERIF, "baseline_obligations.json")
+    if os.path.exists(path):
+        return json.load(open(path))
+    return {}
 
 
 def jsonable(x, depth=0):
@@ -120,6 +129,7 @@ class PropertyRun:
         self.notes = []
         self.repo = Repo(os.environ.get("VERIF_REPO", "/repo"))
         self.replay_dir = os.path.join(VERIF, "replays", pid)
+        self.baseline = load_baseline()
 
     # ------------------------------------------------------------------ proofs
     def prove(self, contract_keys, options=None):
@@ -157,6 +167,8 @@ class PropertyRun:
                 continue
             if not rep.obligations:
                 self.crashes.append(f"{rep.label}: zero obligations generated (vacuous)")
+            for dp in rep.vacuity.get("dead_paths", []):
+                self.crashes.append(f"{rep.label}: contradictory assumptions on path {dp} (vacuous proof)")
             if rep.vacuity.get("requires_sat") not in ("sat",):
                 self.undecided.append(f"{rep.label}: satisfiability of the precondition: {rep.vacuity.get('requires_sat')}")
             failed_keys = set()
@@ -171,16 +183,31 @@ class PropertyRun:
                 failed_keys.add(k)
                 if st == "failed":
                     self._report_failed_obligation(rep, ob, k, findings, RP, searched)
+                    continue
+                # the solver gave up (unknown / timeout).
+                in_baseline = k in self.baseline.get(self.pid, {})
+                if in_baseline:
+                    # discharged on the unchanged tree: retry once, alone, with a large budget, before saying anything
+                    from pyvc.discharge import discharge as _dis
+
+                    _dis([ob], procs=1, timeout_ms=int(os.environ.get("PYVC_RETRY_TIMEOUT_MS", "120000")))
+                    if ob.result["status"] == "discharged":
+                        self.notes.append(f"{ob.label}: discharged on retry with the large budget")
+                        continue
+                    if ob.result["status"] == "failed":
+                        self._report_failed_obligation(rep, ob, k, findings, RP, searched)
+                        continue
+                outcome = RP.replay_obligation(self, rep, ob, searched, undecided=not in_baseline)
+                kf = [x for x in findings if x["key"] == k]
+                if kf and (outcome["found_input"] or in_baseline):
+                    self.known.append(f"KNOWN-FINDING: property={self.pid} {k} {kf[0]['text']}")
+                elif outcome["found_input"]:
+                    self.violations.append({"key": k, "text": f"obligation {ob.label} is not provable and the real function breaks its contract on a concrete input", "replay": outcome["path"], "found_input": True})
+                elif in_baseline:
+                    # an obligation that was discharged on the unchanged tree can no longer be discharged
+                    self.violations.append({"key": k, "text": f"obligation {ob.label} was discharged on the unchanged tree and cannot be discharged now ({ob.result['reason'][:160]})", "replay": outcome["path"], "found_input": False})
                 else:
-                    # the solver gave up.  Never a violation by itself: look for a concrete failing input of the real function.
-                    outcome = RP.replay_obligation(self, rep, ob, searched, undecided=True)
-                    kf = [x for x in findings if x["key"] == k]
-                    if outcome["found_input"] and kf:
-                        self.known.append(f"KNOWN-FINDING: property={self.pid} {k} {kf[0]['text']}")
-                    elif outcome["found_input"]:
-                        self.violations.append({"key": k, "text": f"obligation {ob.label} is no longer provable and the real function breaks its contract on a concrete input", "replay": outcome["path"], "found_input": True})
-                    else:
-                        self.undecided.append(f"{ob.label}: {ob.result['reason']}")
+                    self.undecided.append(f"{ob.label}: {ob.result['reason']}")
         # bounded stand-ins
         for b in self.bounded:
             for e in b.errors:
@@ -251,6 +278,7 @@ class PropertyRun:
                     "paths": rep.paths,
                     "alternatives": rep.alternatives,
                     "precondition_satisfiable": rep.vacuity.get("requires_sat"),
+                    "path_canaries": {r: rep.vacuity.get("canaries", []).count(r) for r in set(rep.vacuity.get("canaries", []))},
                     "callee_contracts_used": [f"{f}:{q}" for f, q in rep.callees],
                     "notes": rep.notes,
                 }
@@ -334,6 +362,16 @@ def run_property(pid, tier="quick", seed=0):
         run.crashes.append(f"evidence: {type(e).__name__}: {e}\n{traceback.format_exc(limit=6)}")
     obs = [ob for rep in run.reports for ob in rep.obligations]
     n_dis = sum(1 for ob in obs if ob.result and ob.result["status"] == "discharged")
+    if os.environ.get("VERIF_REBASELINE") == "1":
+        base = load_baseline()
+        keys = {}
+        for ob in obs:
+            if ob.result and ob.result["status"] == "discharged":
+                k = ob_key(ob)
+                keys[k] = max(keys.get(k, 0.0), ob.result["seconds"])
+        base[pid] = keys
+        json.dump(base, open(os.path.join(VERIF, "baseline_obligations.json"), "w"), indent=0, sort_keys=True)
+        print(f"[{pid}] baseline rewritten: {len(keys)} obligation keys")
     print(f"[{pid}] tier={tier} functions={len(run.reports)} obligations={len(obs)} discharged={n_dis} "
           f"bounded_evaluations={sum(b.evaluations for b in run.bounded)} wall={time.time()-run.t0:.1f}s")
     for rep in run.reports:
